@@ -1,6 +1,86 @@
-(* Ops/C10.v — protocol entry points for property C10 (stub until the model is built). *)
-From Coq Require Import List String.
-From PrefVerif Require Import Lib.Val.
-Import ListNotations.
+(* Ops/C10.v — protocol entry points for property C10 (Model/Entry.v).
 
-Definition ops : optable := [].
+   class      ::= 0 (OrdinalInstance) | 1 (CategoricalInstance) | 2 (MatchingInstance)
+   entrypoint ::= 0 (parse_file: readlines) | 1 (parse_str: splitlines) | 2 (parse_url: stripped splitlines)
+   instance   ::= (0 <ordinal instance as in Ops/C01.v>) | (1 <categorical instance as in Ops/C08.v>)
+                | (2 <matching instance as in Ops/C09.v: weights are raw tokens>)
+   style      ::= (lead (gap ...) trail term)      term ::= 0 (LF) | 1 (CR LF) | 2 (CR)
+
+   c10.parse    (class entrypoint data_type autocorrect header_only content) -> result instance
+   c10.get      (ext autocorrect header_only content)                        -> result instance    get_parsed_instance
+   c10.dispatch ext                                                          -> result class
+   c10.validate (class data_type)                                            -> bool               type_validator
+   c10.restyle  ((style ...) content)                                        -> (wf_pad  restyled content)
+                the style list is applied cyclically to the lines of the content
+   c10.header   instance                                                     -> instance           header_of
+   c10.parse_header (class entrypoint data_type autocorrect content)         -> result instance    header_of (full parse) *)
+From Coq Require Import List ZArith NArith String.
+From PrefVerif Require Import Lib.Val Lib.Dec Lib.PyStr Model.Meta Model.OrdIO Model.CatIO Model.WmdIO Model.Entry.
+From PrefVerif Require Ops.C01 Ops.C08 Ops.C09.
+Import ListNotations.
+Open Scope string_scope.
+
+Definition d_text (v : val) : text := dlist dN v.
+Definition e_text (t : text) : val := elist eN t.
+
+Definition d_cls (v : val) : cls := match dnat v with O => COrd | 1%nat => CCat | _ => CWmd end.
+Definition e_cls (c : cls) : val := match c with COrd => VI 0%Z | CCat => VI 1%Z | CWmd => VI 2%Z end.
+Definition d_entry (v : val) : entry := match dnat v with O => EFile | 1%nat => EStr | _ => EUrl end.
+
+Definition e_inst (i : inst) : val :=
+  match i with
+  | IOrd o => VL [VI 0%Z; Ops.C01.e_inst o]
+  | ICat c => VL [VI 1%Z; Ops.C08.e_cinst c]
+  | IWmd w => VL [VI 2%Z; Ops.C09.e_inst w]
+  end.
+Definition d_inst (v : val) : inst :=
+  match dnat (dnth 0 v) with
+  | O => IOrd (Ops.C01.d_inst (dnth 1 v))
+  | 1%nat => ICat (Ops.C08.d_cinst (dnth 1 v))
+  | _ => IWmd (Ops.C09.d_inst (dnth 1 v))
+  end.
+
+Definition op_parse (v : val) : val :=
+  eresult e_inst (parse_entry (d_entry (dnth 1 v)) (d_cls (dnth 0 v)) (d_text (dnth 2 v))
+                              (mkFlags (dbool (dnth 3 v)) (dbool (dnth 4 v))) (d_text (dnth 5 v))).
+
+Definition op_get (v : val) : val :=
+  eresult e_inst (get_parsed_instance_model (d_text (dnth 0 v)) (mkFlags (dbool (dnth 1 v)) (dbool (dnth 2 v)))
+                                            (d_text (dnth 3 v))).
+
+Definition op_dispatch (v : val) : val :=
+  eresult e_cls (match class_of_ext (d_text v) with Some c => Ok c | None => Err TypeErr end).
+
+Definition op_validate (v : val) : val := ebool (type_validator (d_cls (dnth 0 v)) (d_text (dnth 1 v))).
+
+Definition d_eol (v : val) : eol := match dnat v with O => LF | 1%nat => CRLF | _ => CR end.
+Definition d_style (v : val) : linestyle :=
+  mkStyle (d_text (dnth 0 v)) (dlist dnat (dnth 1 v)) (d_text (dnth 2 v)) (d_eol (dnth 3 v)).
+
+(* the first n elements of the infinite repetition of l *)
+Fixpoint cycle_aux {T} (l cur : list T) (n : nat) : list T :=
+  match n with
+  | O => []
+  | S n' => match cur with
+            | x :: r => x :: cycle_aux l r n'
+            | [] => match l with x :: r => x :: cycle_aux l r n' | [] => [] end
+            end
+  end.
+Definition cycle {T} (l : list T) (n : nat) : list T := cycle_aux l l n.
+
+Definition op_restyle (v : val) : val :=
+  let t := d_text (dnth 1 v) in
+  let pads := cycle (dlist d_style (dnth 0 v)) (List.length (lf_lines t)) in
+  VL [ebool (wf_pad pads); e_text (restyle pads t)].
+
+Definition op_header (v : val) : val := e_inst (header_of (d_inst v)).
+
+(* c10.parse_header (class entrypoint data_type autocorrect content) -> result instance :
+   header_of (the full parse, header_only = False) *)
+Definition op_parse_header (v : val) : val :=
+  eresult e_inst (rmap header_of (parse_entry (d_entry (dnth 1 v)) (d_cls (dnth 0 v)) (d_text (dnth 2 v))
+                                              (mkFlags (dbool (dnth 3 v)) false) (d_text (dnth 4 v)))).
+
+Definition ops : optable :=
+  [ ("c10.parse", op_parse); ("c10.get", op_get); ("c10.dispatch", op_dispatch); ("c10.validate", op_validate);
+    ("c10.restyle", op_restyle); ("c10.header", op_header); ("c10.parse_header", op_parse_header) ].
